@@ -178,3 +178,88 @@ def rule_il_range(ctx):
             ctx.holds("ILRANGE", "ILRANGE:%s" % nm, f.where(), "`%s` is within 0..2 on every path that stores it" % pname, nontrivial=True)
     ctx.floor("ILRANGE", 2, n, "(stores of the requested interlace)")
     return n
+
+
+def _shape(node):
+    """statement shapes with integer constants, |=/&= and ~ abstracted: two arms that do 'the same thing with opposite bits'
+    have equal shapes"""
+    out = []
+
+    def r(e):
+        e = strip(e)
+        if not isinstance(e, list) or not e:
+            return str(e)
+        k = e[0]
+        if k == "var":
+            return e[1]
+        if k == "int":
+            return "K"
+        if k == "asg":
+            op = "OP=" if e[1] in ("|=", "&=") else e[1]
+            return "(%s %s %s)" % (r(e[2]), op, r(e[3]))
+        if k == "bin":
+            return "(%s %s %s)" % (r(e[2]), e[1], r(e[3]))
+        if k == "un":
+            return r(e[2]) if e[1] == "~" else "%s(%s)" % (e[1], r(e[2]))
+        if k == "idx":
+            return "%s[%s]" % (r(e[1]), r(e[2]))
+        if k == "deref":
+            return "*(%s)" % r(e[1])
+        if k == "incdec":
+            return "%s(%s)" % (e[1], r(e[3]))
+        if k == "mem":
+            return "%s.%s" % (r(e[1]), e[2])
+        if k == "call":
+            return "%s(%s)" % (e[1], ",".join(r(a) for a in e[3]))
+        return k
+
+    def stmt(n):
+        k = n[0]
+        if k == "s":
+            out.append(r(n[1]))
+        elif k == "block":
+            for c in n[1]:
+                stmt(c)
+        elif k == "for":
+            out.append("for(%s;%s;%s){" % (r(n[1]) if n[1] else "", r(n[2]) if n[2] else "", r(n[3]) if n[3] else ""))
+            stmt(n[4])
+            out.append("}")
+        elif k in ("nop",):
+            pass
+        else:
+            out.append(k)
+    stmt(node)
+    return out
+
+
+def rule_signext_symmetry(ctx):
+    """SIGNSYM (C05): the n-bit decoder extends the sign of a value by filling the bytes above the sign byte and the bits
+    above the sign bit with ones or with zeroes.  Both fills must touch exactly the same bytes and bits: the `sign_bit == 1`
+    arm and its else arm of HCIcnbit_decode are equal once constants, |=/&= and ~ are abstracted."""
+    prog = ctx.prog
+    f = prog.func("HCIcnbit_decode")
+    if f is None:
+        ctx.unrecognised("SIGNSYM", "SIGNSYM:HCIcnbit_decode", "-", "HCIcnbit_decode not found")
+        return 0
+    found = []
+
+    def vis(n, st):
+        if n[0] == "if" and n[3] is not None:
+            c = strip(n[1])
+            if kind(c) == "bin" and c[1] == "==" and kind(strip(c[2])) == "var" and strip(c[2])[1] == "sign_bit" and is_int(c[3]):
+                found.append(n)
+        return True
+    ast_walk(f.raw.get("ast"), vis)
+    if not found:
+        ctx.unrecognised("SIGNSYM", "SIGNSYM:HCIcnbit_decode", f.where(), "no `if (sign_bit == 1) .. else ..` found")
+        return 0
+    for i, n in enumerate(found):
+        a, b = _shape(n[2]), _shape(n[3])
+        key = "SIGNSYM:HCIcnbit_decode#%d" % (i + 1)
+        if a == b:
+            ctx.holds("SIGNSYM", key, f.where(), "fill-with-ones and fill-with-zeroes arms have the same shape (%d statements)" % len(a), nontrivial=True)
+        else:
+            d = next((x, y) for x, y in zip(a + ["<end>"], b + ["<end>"]) if x != y)
+            ctx.violated("SIGNSYM", key, f.where(), "the two sign-extension arms differ in shape (%s  vs  %s): negative and non-negative values are extended over different bytes/bits"
+                         % (d[0][:70], d[1][:70]))
+    return len(found)
